@@ -416,6 +416,146 @@ def normalise_fn(text, log=None, result_name="r_", signature_only=False):
     return _apply_edits(text, edits), k
 
 
+def _find_seq(texts, pat, start=0):
+    n = len(pat)
+    for i in range(start, len(texts) - n + 1):
+        if texts[i:i + n] == pat:
+            return i
+    return -1
+
+
+def prepass(text, opaque=None, log=None):
+    """Rules applied before normalise_fn, each with a logged inverse:
+    O1  an expression listed for the item (pure, cannot panic, outside the Verus subset) is replaced by a call
+        to an external_body stub declared in the unit:  `EXPR` => `CALL`
+    N4  `for P in E.iter().skip(K) {` => `for P in &E[K..] {`  (equal whenever K <= E.len(), which Verus must prove
+        as the bounds obligation of the slice expression)
+    N2b `else { continue; }` in tail position of a `for` body => `else { (); }`"""
+    toks = [t for t in lex(text) if t.kind not in ("ws", "comment", "doc")]
+    texts = [t.text for t in toks]
+    edits = []
+    for o in (opaque or []):
+        pat = [t.text for t in code_tokens(o["expr"])]
+        pos = 0
+        hits = 0
+        while True:
+            i = _find_seq(texts, pat, pos)
+            if i < 0:
+                break
+            edits.append((toks[i].start, toks[i + len(pat) - 1].end, o["call"]))
+            hits += 1
+            pos = i + len(pat)
+        if hits == 0:
+            raise ExtractError("O1: opaque expression %r not found" % o["expr"])
+        if log is not None:
+            log.append({"rule": "O1", "expr": o["expr"], "call": o["call"], "occurrences": hits})
+    # N4
+    i = 0
+    while i < len(toks):
+        if toks[i].kind == "ident" and toks[i].text == "for" and not (i + 1 < len(toks) and toks[i + 1].text == "<"):
+            d = 0
+            j = i + 1
+            in_tok = None
+            while j < len(toks):
+                x = toks[j]
+                if x.kind == "punct":
+                    if x.text in ("(", "["):
+                        d += 1
+                    elif x.text in (")", "]"):
+                        d -= 1
+                    elif x.text == "{" and d == 0:
+                        break
+                elif x.kind == "ident" and x.text == "in" and d == 0 and in_tok is None:
+                    in_tok = j
+                j += 1
+            if in_tok is not None and j < len(toks):
+                hdr = texts[in_tok + 1:j]
+                # E . iter ( ) . skip ( K )
+                if len(hdr) >= 9 and hdr[-4:-1][0] == "(" and hdr[-9:-4] == [".", "iter", "(", ")", "."] and hdr[-4] == "skip" if False else False:
+                    pass
+                if len(hdr) >= 10 and hdr[-1] == ")" and hdr[-3] == "(" and hdr[-4] == "skip" and hdr[-5] == "." and hdr[-6] == ")" and hdr[-7] == "(" and hdr[-8] == "iter" and hdr[-9] == ".":
+                    base_s, base_e = toks[in_tok + 1].start, toks[j - 10].end
+                    base = text[base_s:base_e]
+                    k = hdr[-2]
+                    edits.append((base_s, toks[j - 1].end, "&%s[%s..]" % (base, k)))
+                    if log is not None:
+                        log.append({"rule": "N4", "base": base, "k": k})
+            i = j
+        i += 1
+    # N2b
+    i = 0
+    while i + 4 < len(toks):
+        if texts[i:i + 5] == ["else", "{", "continue", ";", "}"]:
+            # chain of closers after the else block
+            k = i + 5
+            first_loop = None
+            while k < len(toks) and texts[k] == "}":
+                # find opener of this closer
+                d = 0
+                m = k
+                while m >= 0:
+                    if texts[m] in ("}",):
+                        d += 1
+                    elif texts[m] == "{":
+                        d -= 1
+                        if d == 0:
+                            break
+                    m -= 1
+                # header keyword of the block opened at m: walk back to the statement start
+                h = m - 1
+                dd = 0
+                kw = None
+                while h >= 0:
+                    if texts[h] in (")", "]"):
+                        dd += 1
+                    elif texts[h] in ("(", "["):
+                        dd -= 1
+                    elif dd == 0 and texts[h] in ("{", "}", ";"):
+                        break
+                    elif dd == 0 and texts[h] in ("for", "while", "loop", "if", "else", "match"):
+                        kw = texts[h]
+                        if kw in ("for", "while", "loop"):
+                            break
+                    h -= 1
+                if kw in ("for", "while", "loop"):
+                    first_loop = kw
+                    break
+                k += 1
+            if first_loop == "for":
+                edits.append((toks[i + 2].start, toks[i + 3].end, "();"))
+                if log is not None:
+                    log.append({"rule": "N2b"})
+        i += 1
+    return _apply_edits(text, edits) if edits else text
+
+
+def invert_prepass(s, rules):
+    """s: token texts of the denormalised item; rules: the logged O1/N4/N2b applications."""
+    for r in rules:
+        if r["rule"] == "O1":
+            call = [t.text for t in code_tokens(r["call"])]
+            expr = [t.text for t in code_tokens(r["expr"])]
+            for _ in range(r.get("occurrences", 1)):
+                i = _find_seq(s, call)
+                if i < 0:
+                    raise ExtractError("O1 inverse: call %r not found" % r["call"])
+                s = s[:i] + expr + s[i + len(call):]
+        elif r["rule"] == "N4":
+            base = [t.text for t in code_tokens(r["base"])]
+            pat = ["&"] + base + ["[", r["k"], "..", "]"]
+            i = _find_seq(s, pat)
+            if i < 0:
+                raise ExtractError("N4 inverse: slice %r not found" % " ".join(pat))
+            s = s[:i] + base + [".", "iter", "(", ")", ".", "skip", "(", r["k"], ")"] + s[i + len(pat):]
+        elif r["rule"] == "N2b":
+            pat = ["else", "{", "(", ")", ";", "}"]
+            i = _find_seq(s, pat)
+            if i < 0:
+                raise ExtractError("N2b inverse: `else { (); }` not found")
+            s = s[:i] + ["else", "{", "continue", ";", "}"] + s[i + len(pat):]
+    return s
+
+
 def denormalise_tokens(toks, result_name="r_"):
     """Inverse of A1, A2, N1 on a code-token list (texts only). A3/A4 are whitespace."""
     s = [t.text for t in toks]
